@@ -57,13 +57,13 @@ func (c *feedConn) Read(p []byte) (int, error) {
 	c.off += n
 	return n, nil
 }
-func (c *feedConn) Write(p []byte) (int, error)        { return len(p), nil }
-func (c *feedConn) Close() error                       { return nil }
-func (c *feedConn) LocalAddr() net.Addr                { return mx.TCPLocal }
-func (c *feedConn) RemoteAddr() net.Addr               { return mx.TCPRemote }
-func (c *feedConn) SetDeadline(time.Time) error        { return nil }
-func (c *feedConn) SetReadDeadline(time.Time) error    { return nil }
-func (c *feedConn) SetWriteDeadline(time.Time) error   { return nil }
+func (c *feedConn) Write(p []byte) (int, error)      { return len(p), nil }
+func (c *feedConn) Close() error                     { return nil }
+func (c *feedConn) LocalAddr() net.Addr              { return mx.TCPLocal }
+func (c *feedConn) RemoteAddr() net.Addr             { return mx.TCPRemote }
+func (c *feedConn) SetDeadline(time.Time) error      { return nil }
+func (c *feedConn) SetReadDeadline(time.Time) error  { return nil }
+func (c *feedConn) SetWriteDeadline(time.Time) error { return nil }
 
 var serverCert = func() tls.Certificate {
 	key, _ := ecdsa.GenerateKey(elliptic.P256(), rand.Reader)
